@@ -15,7 +15,7 @@ import (
 func init() {
 	register(&propDef{
 		ID:          "C06",
-		Explanation: "Totality and promptness of the parser over all byte strings are runtime facts and are R4 (termination of the top-level loop) every parser that has read one of the template keywords (templ / css / script) turns each later failed sub-parse into an error — it never declines with ok=false and a nil error, because the Go-code reader un-reads keyword lines containing an opening parenthesis and asks these parsers again; R5 every write into a strings.Builder whose String() becomes an Expression's text is text consumed from the input (result of Parse/Take), never a constant. R6 every `until` lookahead handed to the node-list parser (which rewinds after a match) is flat: it does not reach the node-list parser again, so no branch is parsed twice per nesting level. NOT decided. R7 the text handed to the whole-file entry points (ParseString, parse.NewInput) in parser/v2, the LSP proxy and generatecmd is the text that was read: no strings/bytes/regexp/unicode call that produces text lies on its way (a stripped BOM or converted line ending shifts every recorded position against the file); the un-read test of R4 may be a regular expression, whose required prefixes are then enumerated from the pattern. Decides the position-provenance clauses of the property, for all sites of package parser/v2 and goexpression: R1 every Expression/Range built by the parser goes through NewExpression/NewRange with positions that are parse.Position values obtained from the input being parsed (Position()/PositionAt(), or locals/parameters of that type); no Position, Range or Expression composite literal with position fields exists outside the three constructors, and the constructors copy index, line and column field by field; direct writes to Index/Line/Col exist only as a paired adjustment of Index and Col of the same position by the same constant; R2 every NameRange is NewRange(PositionAt(Index() − len(X.Name)), Position()) where X.Name is the field assigned by the name parser in the statement just before, for the same X; R3 (clamps) the bounds that come from go/parser positions are clamped before they are used to slice the source: in the extractor wrapper `end > len(content) → end = len(content)` and `start > end → start = end` follow the prefix subtraction and precede the return, and every slice bound taken from a go/ast End() position is tested (rejected or clamped) before the slice; parseGo slices and advances with the extractor's own start/end and converts them with PositionAt(from+start / from+end). NOT decided: absence of panics and hangs on arbitrary input, that the recorded text equals the source at the recorded range for every construct (value-level), error positions.",
+		Explanation: "Totality and promptness of the parser over all byte strings are runtime facts and are R4 (termination of the top-level loop) every parser that has read one of the template keywords (templ / css / script) turns each later failed sub-parse into an error — it never declines with ok=false and a nil error, because the Go-code reader un-reads keyword lines containing an opening parenthesis and asks these parsers again; R5 every write into a strings.Builder whose String() becomes an Expression's text is text consumed from the input (result of Parse/Take), never a constant. R6 every `until` lookahead handed to the node-list parser (which rewinds after a match) is flat: it does not reach the node-list parser again, so no branch is parsed twice per nesting level. R7 the text handed to the whole-file entry points (ParseString, parse.NewInput) in parser/v2, the LSP proxy and generatecmd is the text that was read: no strings/bytes/regexp/unicode call that produces text lies on its way (a stripped BOM or converted line ending shifts every recorded position against the file); the un-read test of R4 may be a regular expression, whose required prefixes are then enumerated from the pattern. Decides the position-provenance clauses of the property, for all sites of package parser/v2 and goexpression: R1 every Expression/Range built by the parser goes through NewExpression/NewRange with positions that are parse.Position values obtained from the input being parsed (Position()/PositionAt(), or locals/parameters of that type); no Position, Range or Expression composite literal with position fields exists outside the three constructors, and the constructors copy index, line and column field by field; direct writes to Index/Line/Col exist only as a paired adjustment of Index and Col of the same position by the same constant; R2 every NameRange is NewRange(PositionAt(Index() − len(X.Name)), Position()) where X.Name is the field assigned by the name parser in the statement just before, for the same X; R3 (clamps) the bounds that come from go/parser positions are clamped before they are used to slice the source: in the extractor wrapper `end > len(content) → end = len(content)` and `start > end → start = end` follow the prefix subtraction and precede the return, and every slice bound taken from a go/ast End() position is tested (rejected or clamped) before the slice; parseGo slices and advances with the extractor's own start/end and converts them with PositionAt(from+start / from+end). NOT decided: absence of panics and hangs on arbitrary input, that the recorded text equals the source at the recorded range for every construct (value-level), error positions.",
 		Assumptions: []string{"github.com/a-h/parse Input.Position/PositionAt derive line and column from the byte index through its newline table"},
 		Trusted:     []string{"go/types", "x/tools go/packages, go/cfg"},
 		Run:         runC06,
@@ -166,50 +166,7 @@ func runC06(c *Ctx) {
 		})
 	}
 	c.count("constructor_call_sites", ncall)
-	// (d) direct field writes
-	type fw struct {
-		base, field, op, val string
-		pos                  token.Pos
-		fn                   string
-	}
-	var writes []fw
-	for _, fd := range fileScopes(p) {
-		if fd.Recv != nil && recvTypeName(fd.Recv.List[0].Type) == "SourceMap" {
-			continue // target-side bookkeeping, C07
-		}
-		ast.Inspect(fd.Body, func(x ast.Node) bool {
-			as, ok := x.(*ast.AssignStmt)
-			if !ok || len(as.Lhs) != 1 {
-				return true
-			}
-			se, ok := as.Lhs[0].(*ast.SelectorExpr)
-			if !ok {
-				return true
-			}
-			if se.Sel.Name != "Index" && se.Sel.Name != "Line" && se.Sel.Name != "Col" {
-				return true
-			}
-			if t := info.TypeOf(se.X); t == nil || (t.String() != pkgParser+".Position" && !isParsePos(t)) {
-				return true
-			}
-			writes = append(writes, fw{types.ExprString(se.X), se.Sel.Name, as.Tok.String(), types.ExprString(as.Rhs[0]), as.Pos(), funcKey(p, fd)})
-			return true
-		})
-	}
-	for i, w := range writes {
-		paired := false
-		for j, o := range writes {
-			if i != j && o.base == w.base && o.fn == w.fn && o.op == w.op && o.val == w.val && ((w.field == "Col" && o.field == "Index") || (w.field == "Index" && o.field == "Col")) {
-				paired = true
-			}
-		}
-		_, isConst := 0, false
-		if w.op == "-=" || w.op == "+=" {
-			isConst = strings.Trim(w.val, "0123456789") == ""
-		}
-		c.check(paired && isConst, "C06.R1", fmt.Sprintf("%s|adjusts:%s.%s", w.fn, w.base, w.field), c.pos(w.pos), "paired constant adjustment of Index and Col",
-			fmt.Sprintf("%s writes %s.%s %s %s without the same adjustment of the other coordinate: index and column of the position no longer agree", w.fn, w.base, w.field, w.op, w.val))
-	}
+	positionFieldWrites(c, "C06.R1", "")
 	c.floor("C06.R1", 20)
 
 	// R2 ------------------------------------------------------------
@@ -1110,4 +1067,58 @@ func regexRequiredPrefixes(pat string) ([]string, bool) {
 		return nil, false
 	}
 	return cur, true
+}
+
+// positionFieldWrites: direct writes to the Index / Line / Col fields of a position exist only as a paired adjustment
+// of Index and Col of the same position by the same constant (a step over a one-byte delimiter on the same line).
+// Anything else (a computed distance, one coordinate alone) lets index, line and column of a recorded position disagree.
+func positionFieldWrites(c *Ctx, rule, suffix string) {
+	p := c.pkg("parser/v2")
+	info := p.TypesInfo
+	isParsePos := func(t types.Type) bool { return t != nil && t.String() == "github.com/a-h/parse.Position" }
+	// (d) direct field writes
+	type fw struct {
+		base, field, op, val string
+		pos                  token.Pos
+		fn                   string
+	}
+	var writes []fw
+	for _, fd := range fileScopes(p) {
+		if fd.Recv != nil && recvTypeName(fd.Recv.List[0].Type) == "SourceMap" {
+			continue // target-side bookkeeping, C07
+		}
+		ast.Inspect(fd.Body, func(x ast.Node) bool {
+			as, ok := x.(*ast.AssignStmt)
+			if !ok || len(as.Lhs) != 1 {
+				return true
+			}
+			se, ok := as.Lhs[0].(*ast.SelectorExpr)
+			if !ok {
+				return true
+			}
+			if se.Sel.Name != "Index" && se.Sel.Name != "Line" && se.Sel.Name != "Col" {
+				return true
+			}
+			if t := info.TypeOf(se.X); t == nil || (t.String() != pkgParser+".Position" && !isParsePos(t)) {
+				return true
+			}
+			writes = append(writes, fw{types.ExprString(se.X), se.Sel.Name, as.Tok.String(), types.ExprString(as.Rhs[0]), as.Pos(), funcKey(p, fd)})
+			return true
+		})
+	}
+	for i, w := range writes {
+		paired := false
+		for j, o := range writes {
+			if i != j && o.base == w.base && o.fn == w.fn && o.op == w.op && o.val == w.val && ((w.field == "Col" && o.field == "Index") || (w.field == "Index" && o.field == "Col")) {
+				paired = true
+			}
+		}
+		_, isConst := 0, false
+		if w.op == "-=" || w.op == "+=" {
+			isConst = strings.Trim(w.val, "0123456789") == ""
+		}
+		c.check(paired && isConst, rule, fmt.Sprintf("%s|adjusts:%s.%s", w.fn, w.base, w.field), c.pos(w.pos), "paired constant adjustment of Index and Col",
+			fmt.Sprintf("%s writes %s.%s %s %s without the same adjustment of the other coordinate: index and column of the position no longer agree"+suffix, w.fn, w.base, w.field, w.op, w.val))
+	}
+	c.count("position_field_writes", len(writes))
 }
